@@ -37,8 +37,11 @@ class PolarizationState:
 
         if self.Ex is not None and self.Ey is not None:
             mag = np.sqrt(self.Ex**2 + self.Ey**2)
-            self.Ex /= mag
-            self.Ey /= mag
+            # amplitudes that are already normalised (a saved state that is
+            # loaded again) are kept bit for bit
+            if abs(mag - 1.0) > 4 * np.finfo(float).eps:
+                self.Ex /= mag
+                self.Ey /= mag
 
     def to_dict(self):
         """Convert the polarization state to a dictionary."""
